@@ -94,7 +94,12 @@ func main() {
 	}
 	if os.Getenv("IAVLCHECK_DUMPFORMAT") != "" {
 		dumpFormats(root, v2)
-		dumpTables(root)
+		if root != nil {
+			dumpTables(root)
+		}
+		if v2 != nil {
+			dumpV2Tables(v2)
+		}
 	}
 	loadT := time.Since(start)
 	fmt.Printf("loaded in %.1fs (root funcs=%d)\n", loadT.Seconds(), func() int {
